@@ -197,20 +197,41 @@ func openSut(h *verifx.H, maxBudget int64, step uint32, bonus, globalBudget int6
 	if _, err := fsbinlog.CreateEmptyFsBinlog(bo); err != nil {
 		panic(err)
 	}
-	bl, err := fsbinlog.NewFsBinlog(nolog{}, bo)
-	if err != nil {
-		panic(err)
-	}
 	x := &sut{h: h, dir: dir, now: now, ctx: context.Background(), maxBudget: maxBudget, step: step, bonus: bonus, globalBudget: globalBudget,
 		cur: map[int64]int64{}, typ: map[int64]int32{}, nm: map[int64]string{}, nsName: map[int64]string{}, tainted: map[int64]bool{},
 		versions: map[int64]bool{}, shadow: map[string]int32{}, everID: map[int32]bool{}, env: map[int]*envelope{}, flags: map[string]bool{}}
-	x.db, err = metadata.OpenDB(dir+"/db", metadata.Options{MaxBudget: maxBudget, StepSec: step, BudgetBonus: bonus, GlobalBudget: globalBudget,
+	x.open()
+	h.Op("cfg %d %d %d %d", maxBudget, step, bonus, globalBudget)
+	return x
+}
+
+// open: OpenDB on the files in x.dir (a fresh fsbinlog reader/writer on the same prefix, as a restarted process would)
+func (x *sut) open() {
+	bl, err := fsbinlog.NewFsBinlog(nolog{}, fsbinlog.Options{PrefixPath: x.dir + "/binlog", Magic: 3456})
+	if err != nil {
+		panic(err)
+	}
+	x.db, err = metadata.OpenDB(x.dir+"/db", metadata.Options{MaxBudget: x.maxBudget, StepSec: x.step, BudgetBonus: x.bonus, GlobalBudget: x.globalBudget,
 		Now: func() time.Time { return time.Unix(x.now, 0) }}, bl)
 	if err != nil {
 		panic(err)
 	}
-	h.Op("cfg %d %d %d %d", maxBudget, step, bonus, globalBudget)
-	return x
+}
+
+// reopen: orderly restart (Close, OpenDB). Everything durable must survive; lastMappingIDToInsert starts from 0 again.
+func (x *sut) reopen() {
+	x.h.Op("reopen")
+	x.guard(func() {
+		if err := x.db.Close(); err != nil {
+			x.h.Obs("err close %s", strings.ReplaceAll(err.Error(), " ", "_"))
+			return
+		}
+		x.open()
+		x.h.Obs("reopened")
+		x.h.Stat("reopen", 1)
+		x.lastCreated = 0
+		x.flags["reopened"] = true
+	})
 }
 
 func (x *sut) close() {
@@ -300,6 +321,10 @@ func (x *sut) observeSave(a saveReq, e tlmetadata.Event, err error) {
 		if x.typ[e.Id] != a.typ {
 			x.tainted[e.Id] = true
 			h.Stat("save.ok.type-mismatch", 1)
+			if x.typ[e.Id] == 4 && x.nm[e.Id] != a.n.str() {
+				// reported finding, not an alarm: see namespace_rename_only_by_foreign_type in lean/SH/Props/C15.lean
+				h.Stat("save.ok.namespace-renamed-by-foreign-type", 1)
+			}
 		} else if a.typ == 4 && x.nm[e.Id] != a.n.str() {
 			h.Viol("namespace-renamed", "namespace %d renamed from %q to %q", e.Id, x.nm[e.Id], a.n.str())
 		}
@@ -662,6 +687,12 @@ func (x *sut) newmaps(from int32, page int32) {
 
 func (x *sut) dump() {
 	x.h.Op("dump")
+	x.dumpBody(true)
+}
+
+func (x *sut) dumpNoHistory() { x.dumpBody(false) }
+
+func (x *sut) dumpBody(withHistory bool) {
 	x.guard(func() {
 		st, err := metadata.VerifDump(x.db)
 		if err != nil {
@@ -693,6 +724,9 @@ func (x *sut) dump() {
 		}
 		hv := map[int64]bool{}
 		for _, e := range st.History {
+			if !withHistory {
+				continue
+			}
 			x.h.Obs("H %d:%d:%s:%d:%d:%d:%d:%s:%s", e.EntityID, e.Version, nameTok(e.Name), e.Type, e.NamespaceID, e.UpdatedAt, e.DeletedAt, dataTok(e.Data), metaTok(e.Metadata))
 			if hv[e.Version] {
 				x.h.Viol("dup-version", "history holds version %d twice", e.Version)
@@ -1062,8 +1096,85 @@ func raceC15(h *verifx.H, r *verifx.Rng) {
 			h.NonTrivial("race-one-winner")
 		}
 	}
+	// ---- racing edits with DIFFERENT payloads (new names, data, metadata) from one version: which goroutine wins is not
+	// deterministic, so only order-independent facts are printed (number of winners, id, new version, sorted error kinds); the
+	// winner's payload is then overwritten by a fixed edit and the history table is left out of the final dump
+	if ids := knownIDs(x); len(ids) > 0 {
+		x.tick(r)
+		id := ids[r.Intn(len(ids))]
+		typ := x.typ[id]
+		const K = 8
+		reqs := make([]saveReq, K)
+		toks := make([]string, K)
+		for g := range reqs {
+			n := name{0, 100 + g}
+			if typ == 4 || x.tainted[id] {
+				n = parseStrName(x.nm[id]) // namespaces keep their name: the racers differ in data and metadata
+			}
+			reqs[g] = saveReq{n: n, id: id, oldVersion: x.cur[id], typ: typ, dtag: 10 + g, dlen: 4, meta: g % 4}
+			toks[g] = fmt.Sprintf("%s/%d/%d", n.tok(), 10+g, g%4)
+		}
+		h.Op("race %d %d %d %d %s", id, x.cur[id], typ, x.now, strings.Join(toks, ","))
+		type res struct {
+			e   tlmetadata.Event
+			err error
+		}
+		out := make([]res, K)
+		var wg sync.WaitGroup
+		start := make(chan struct{})
+		for g := 0; g < K; g++ {
+			wg.Add(1)
+			go func(g int) {
+				defer wg.Done()
+				<-start
+				e, err := x.doSave(reqs[g])
+				out[g] = res{e, err}
+			}(g)
+		}
+		close(start)
+		wg.Wait()
+		wins, who := 0, ""
+		var errs []string
+		for g, o := range out {
+			if o.err != nil {
+				errs = append(errs, classify(o.err))
+				continue
+			}
+			wins++
+			who = fmt.Sprintf(" id=%d ver=%d", o.e.Id, o.e.Version)
+			if o.e.Version <= x.maxVer {
+				h.Viol("version-not-increasing", "racing edit of entity %d got version %d, previous maximum %d", id, o.e.Version, x.maxVer)
+			}
+			x.cur[o.e.Id], x.nm[o.e.Id] = o.e.Version, reqs[g].n.str()
+			x.versions[o.e.Version] = true
+			if o.e.Version > x.maxVer {
+				x.maxVer = o.e.Version
+			}
+		}
+		if wins != 1 {
+			who = ""
+		}
+		sort.Strings(errs)
+		h.Obs("race ok=%d%s errs=%s", wins, who, verifx.List(errs))
+		h.Stat(fmt.Sprintf("race.distinct.winners.%d", wins), 1)
+		if wins > 1 {
+			h.Viol("race-multiple-winners", "%d of %d racing edits with different payloads from version %d of entity %d succeeded", wins, K, reqs[0].oldVersion, id)
+		}
+		if wins == 0 {
+			h.Viol("race-no-winner", "none of %d racing edits (each valid on its own) from version %d of entity %d succeeded: %v", K, reqs[0].oldVersion, id, errs)
+		}
+		if wins == 1 {
+			h.NonTrivial("race-distinct-one-winner")
+			fix := saveReq{n: name{0, 99}, id: id, oldVersion: x.cur[id], typ: typ, dtag: 1, dlen: 4, meta: 1}
+			if typ == 4 || x.tainted[id] {
+				fix.n = parseStrName(x.nm[id])
+			}
+			x.save(fix) // overwrites whatever the winner wrote
+		}
+	}
 	x.journalWalk(0, 2)
-	x.dump()
+	x.h.Op("dumpe")
+	x.dumpNoHistory()
 }
 
 // ------------------------------------------------------------------ journal long-poll through the real rpc handler
@@ -1395,6 +1506,9 @@ func historyC19(h *verifx.H, r *verifx.Rng) {
 		x.tick(r)
 		if r.Chance(1, 15) {
 			entityOp(x, r, false)
+		} else if r.Chance(1, 30) {
+			x.reopen()
+			x.dump()
 		} else {
 			mappingOp(x, r, nkeys, nmetrics)
 		}
@@ -1465,6 +1579,18 @@ func scriptCase(h *verifx.H) {
 		panic(err)
 	}
 	var x *sut
+	var p *poller // the rpc server + Handler, started by the first rpcsave / sub / broadcast op
+	poll := func() *poller {
+		if p == nil {
+			p = newPoller(x)
+		}
+		return p
+	}
+	defer func() {
+		if p != nil {
+			p.close()
+		}
+	}()
 	atoi := func(s string) int64 { v, _ := strconv.ParseInt(s, 10, 64); return v }
 	for _, line := range strings.Split(string(raw), "\n") {
 		t := strings.Fields(strings.TrimPrefix(strings.TrimSpace(line), ">"))
@@ -1488,6 +1614,16 @@ func scriptCase(h *verifx.H) {
 			x.now = atoi(t[10])
 			x.save(saveReq{n: n, id: atoi(t[2]), oldVersion: atoi(t[3]), dtag: int(atoi(t[4])), dlen: int(atoi(t[5])), create: t[6] == "1",
 				del: uint32(atoi(t[7])), typ: int32(atoi(t[8])), meta: int(atoi(t[9]))})
+		case t[0] == "rpcsave" && len(t) == 11:
+			var n name
+			fmt.Sscanf(t[1], "%d:%d", &n.ns, &n.loc)
+			x.now = atoi(t[10])
+			poll().rpcsave(saveReq{n: n, id: atoi(t[2]), oldVersion: atoi(t[3]), dtag: int(atoi(t[4])), dlen: int(atoi(t[5])), create: t[6] == "1",
+				del: uint32(atoi(t[7])), typ: int32(atoi(t[8])), meta: int(atoi(t[9]))})
+		case t[0] == "sub" && len(t) == 5:
+			poll().sub(int(atoi(t[1])), atoi(t[2]), atoi(t[3]), t[4] == "1")
+		case t[0] == "broadcast":
+			poll().broadcast()
 		case t[0] == "journal" && len(t) == 3:
 			x.journal(atoi(t[1]), atoi(t[2]))
 		case t[0] == "getv" && len(t) == 3:
@@ -1525,6 +1661,8 @@ func scriptCase(h *verifx.H) {
 			x.byid(int32(atoi(t[1])))
 		case t[0] == "newmaps" && len(t) == 3:
 			x.newmaps(int32(atoi(t[1])), int32(atoi(t[2])))
+		case t[0] == "reopen":
+			x.reopen()
 		case t[0] == "dump":
 			x.dump()
 		default:
